@@ -372,6 +372,7 @@ func generate(p *Program, cs *ContractSet, prop string, only string) *genOutput 
 
 func solveAll(obls []*Obligation, cfg *runConfig) []*OblResult {
 	res := make([]*OblResult, len(obls))
+	kfs := loadKnownFindings()
 	var wg sync.WaitGroup
 	sem := make(chan struct{}, cfg.workers)
 	for i, o := range obls {
@@ -389,12 +390,21 @@ func solveAll(obls []*Obligation, cfg *runConfig) []*OblResult {
 			if o.Cover && to > 5 {
 				to = 5
 			}
+			// obligations listed in known_findings.txt are expected to fail: do not wait long for them
+			for _, kf := range kfs {
+				if kf.Kind == "finding" && kf.Prop == cfg.prop && kf.When != "" && globMatch(kf.Obligation, o.Name) && to > 4 {
+					to = 4
+				}
+			}
 			light := ""
 			if !o.Cover && o.Gen != nil && o.Gen.fn != nil {
 				light = o.smtTextS(nil, true)
 				if hasQuant(light) {
 					light = "" // goal itself is quantified and could not be skolemised
 				}
+			}
+			if cfg.dump != "" && strings.Contains(o.Name, cfg.dump) && light != "" {
+				os.WriteFile("/tmp/govc-dump-"+sanitize(o.Name)+".light.smt2", []byte(light), 0o644)
 			}
 			r := solve2(text, light, to, false, cfg.allSolve && !o.Cover, o.Name)
 			res[i] = &OblResult{O: o, R: r, SMT: len(text)}
